@@ -17,6 +17,7 @@ GSTRUCT_SRC = '''
 from typing import Generic
 from collections.abc import Callable
 from guppylang.std.option import Option
+from guppylang.std.either import Either
 _T = guppy.type_var("T", copyable=False, droppable=False)
 _TC = guppy.type_var("T", copyable=True, droppable=False)
 _TD = guppy.type_var("T", copyable=False, droppable=True)
@@ -205,6 +206,8 @@ def proj_type(ty, notes: Notes | None = None, unmark=False):
             return ["farr", proj_type(ty.args[0].ty, notes), proj_const(ty.args[1].const, notes)]
         if d == b.option_type_def:
             return ["opt", proj_type(ty.args[0].ty, notes)]
+        if d.name == "Either":
+            return ["either", proj_type(ty.args[0].ty, notes), proj_type(ty.args[1].ty, notes)]
         if d.name == "qubit":
             return ["qubit"]
         raise ValueError(f"opaque type {d.name}")
@@ -302,6 +305,8 @@ def type_text(t, names: Names | None = None, var=lambda t: t[2], owned_in_fn=Tru
         return f"frozenarray[{r(t[1])}, {const_text(t[2], var)}]"
     if tag == "opt":
         return f"Option[{r(t[1])}]"
+    if tag == "either":
+        return f"Either[{r(t[1])}, {r(t[2])}]"
     if tag == "fn":
         return "Callable[[" + ", ".join(r(e) for e in t[1]) + "], " + r(t[2]) + "]"
     if tag == "rec":
